@@ -25,3 +25,11 @@ Lemma sphere_2cols_not_closed : closed_idxb sphere_cls (sphere_idx 3 2) = false.
 Proof. vm_compute. reflexivity. Qed.
 Lemma cyl_2sides_not_closed : closed_idxb (cyl_cls 2) (cyl_idx 2) = false.
 Proof. vm_compute. reflexivity. Qed.
+
+(* round 4: the hypotheses of the parametric theorems are needed — the constructor Cylinder.ToMesh accepts Sides = 2 (it does not
+   validate), and the result is NOT a closed surface: "admissible" for a cylinder has to mean sides >= 3 *)
+Theorem cyl_closed_below_3_refuted : exists n, 1 <= n /\ ~ closed_idx (cyl_cls n) (cyl_idx n).
+Proof. exists 2. split; [discriminate|]. intro H. apply closed_idxb_iff in H. vm_compute in H. discriminate. Qed.
+(* likewise two columns (which UVSphere / Hemisphere.UV reject) *)
+Theorem sphere_closed_below_3_refuted : exists r c, 2 <= r /\ 1 <= c /\ ~ closed_idx sphere_cls (sphere_idx r c).
+Proof. exists 3, 2. split; [discriminate|]. split; [discriminate|]. intro H. apply closed_idxb_iff in H. vm_compute in H. discriminate. Qed.
